@@ -257,3 +257,23 @@ func verifC09Rank(rx, ry, rz int) {}
 //@   props C06
 //@   requires m != nil && matchOK(deref(m))
 //@   ensures r <==> (0 <= i < m.n && (m.m == nil ? m.x : bit(m.m, i)))
+
+//@ func (m *Match) All() (r bool)
+//@   props C06
+//@   requires m != nil && matchOK(deref(m))
+//@   ensures m.m == nil ==> r == m.x
+//@   ensures m.m != nil ==> (r <==> forall i int :: 0 <= i < m.n ==> bit(m.m, i))
+//@   loop 1:
+//@     invariant 0 <= idx() <= len(m.m)
+//@     invariant forall i int :: 0 <= i < m.n && i < 32*idx() ==> bit(m.m, i)
+//@     decreases len(m.m) - idx()
+
+//@ func (m *Match) Any() (r bool)
+//@   props C06
+//@   requires m != nil && matchOK(deref(m))
+//@   ensures m.m == nil ==> r == m.x
+//@   ensures m.m != nil ==> (r <==> exists i int :: 0 <= i < m.n && bit(m.m, i))
+//@   loop 1:
+//@     invariant 0 <= idx() <= len(m.m)
+//@     invariant forall i int :: 0 <= i < m.n && i < 32*idx() ==> !bit(m.m, i)
+//@     decreases len(m.m) - idx()
